@@ -28,6 +28,28 @@ def split_id(tid: str) -> Tuple[int, str]:
     return int(p), n
 
 
+def match_ids(patterns, pool_snap, gt, future=True):
+    """Instance ids selected by command id patterns.
+
+    Globs select pooled tasks only; an explicit CYCLE/NAME also selects a
+    task that is not (yet) in the pool when `future`."""
+    import fnmatch
+    out = set()
+    pooled = {t['id'] for t in pool_snap}
+    for pat in patterns:
+        pat = pat.split(':')[0]
+        if any(c in pat for c in '*?['):
+            c, _, n = pat.partition('/')
+            for tid in pooled:
+                p, name = tid.split('/', 1)
+                if fnmatch.fnmatchcase(p, c) and fnmatch.fnmatchcase(
+                        name, n or '*'):
+                    out.add(tid)
+        elif pat in pooled or future:
+            out.add(pat)
+    return out
+
+
 class Base:
     NAME = 'base'
     PID = None
@@ -79,6 +101,11 @@ class Ledger(Base):
         k = ev['k']
         if k == 'CMD':
             self.commands += 1
+            if ev['cmd'] in ('force_trigger_tasks', 'set', 'remove_tasks',
+                             'kill_tasks'):
+                for tid in match_ids(ev['args'].get('tasks') or [],
+                                     ev.get('pool') or [], self.gt):
+                    self.manual.add(tid)
         elif k == 'SUBMIT_CMD':
             for j in ev['jobs']:
                 p, n, num = j.split('/')
